@@ -320,6 +320,7 @@ type onode struct {
 	startApplied     uint64
 	prevMaxDelivered uint64           // highest height handed to an earlier incarnation of this node
 	reported         map[uint64]int64 // height -> fake time at which ReportState was issued
+	deliveredAt      map[uint64]int64 // height -> fake time at which consensus first handed the height to this node (any incarnation)
 	snapAtStart      uint64           // raft: index of the snapshot the log of this incarnation starts from
 	recordedAtStart  uint64           // raft: applied index recorded on disk when this incarnation started
 	replayChecked    bool
@@ -657,6 +658,12 @@ func (c *cluster) onDelivery(n *onode, ev *pb.CommitEvent) {
 		c.vio("height-order", cls, "node %d (incarnation %d, started at executed height %d) was handed height %d after height %d", n.id, n.inc, n.startApplied, b.height, n.lastDelivered)
 	}
 	n.lastDelivered = b.height
+	if n.deliveredAt == nil {
+		n.deliveredAt = map[uint64]int64{}
+	}
+	if n.deliveredAt[b.height] == 0 {
+		n.deliveredAt[b.height] = time.Now().UnixNano()
+	}
 	if s, ok := c.agreed[b.height]; ok {
 		if s != b.sig() {
 			discr := ""
@@ -674,7 +681,9 @@ func (c *cluster) onDelivery(n *onode, ev *pb.CommitEvent) {
 				discr := ""
 				for _, x := range c.nodes {
 					// the batch carries the (fake) time at which its leader generated it
-					if at, ok := x.reported[prev]; x.alive && (!ok || at >= b.ts) {
+					// (delivered to that node before the second batch was generated: a batch cut while the first block was
+					// still an uncommitted entry of a deposed leader is what the new leader's hold-off exists to prevent)
+					if at, ok := x.reported[prev]; x.alive && (!ok || at >= b.ts) && x.deliveredAt[prev] != 0 && x.deliveredAt[prev] <= b.ts {
 						// known family: a (new) leader batches a transaction of a block that consensus has
 						// delivered but whose execution has not been reported to its pool yet
 						discr = "first-block-not-yet-reported-to-every-pool"
